@@ -29,7 +29,8 @@ void VFN(vf_log)(vf_i32 code, vf_i32 arg) {
     else if (c < 5000) cls = VF_M_N;
     else if (c < 6000) cls = VF_M_C;
     else if (c < 7000) cls = VF_M_F;
-    else cls = VF_M_Q;
+    else if (c < 8000) cls = VF_M_Q;
+    else cls = VF_M_S;
     if (!(vf_projmask & cls)) return;
   }
   VF_CHECK(vf_nlog < VF_MAXLOG, "bound:log capacity exceeded");
